@@ -80,7 +80,14 @@ Definition upd_repl (s : nstate) (id : N) (f : replst -> replst) : nstate :=
 
 Definition transfer_in_progress (l : ldrst) : bool := ld_tr_active l.
 Definition target_chosen (l : ldrst) : bool := ld_tr_resp l || ld_tr_newterm l.
+(* canChangeConfig: the latest configuration is committed, this leader has committed an entry
+   of its own term (commitIndex >= startIndex), and no transfer is in progress *)
 Definition can_change_config (s : nstate) (l : ldrst) : bool :=
+  configs_committed s && (ld_start l <=? st_commit s) && negb (transfer_in_progress l).
+
+(* before the repair recorded in known_findings.json (D3) the own-term-commit condition was only
+   applied to requests submitted by the user, not to actions found pending at leader.init *)
+Definition can_change_config_before_fix (s : nstate) (l : ldrst) : bool :=
   configs_committed s && negb (transfer_in_progress l).
 
 (* Log.ViewAt(p, q) on the node's log: Err = panic, nil_view = nil *)
@@ -378,7 +385,10 @@ with on_majority_commit (fuel : nat) (s : nstate) {struct fuel} : outcome W :=
 with leader_set_commit_index (fuel : nat) (s : nstate) (index : N) {struct fuel} : outcome W :=
   match fuel with O => Err EBug | S f =>
   let s1 := commit_log s index in
+  l0 <~ get_ldr s ;;
+  let ready := (st_commit s <? ld_start l0) && (ld_start l0 <=? index) in
   let (s2, committed) := raft_set_commit_index (o_shutdown_on_remove opt) s1 index in
+  s2 <~~ (if negb committed && ready then check_config_actions f s2 0 (st_latest s2) else wret s2) ;;
   if committed then
     l <~ get_ldr s2 ;;
     if configs_committed s2 && is_stable (st_latest s2) then
